@@ -1210,7 +1210,7 @@ func c01(r *core.Run) {
 			// and the edge it enters the result through (a breaker built before the lock is taken and
 			// dropped when the name turns out to be registered is never returned)
 			for _, ret := range core.Returns(f) {
-				gxLeavesWithEdges(core.Result(ret, 0), func(leaf ssa.Value, edge *core.Edge) {
+				c01LeavesWithEdges(core.Result(ret, 0), func(leaf ssa.Value, edge *core.Edge) {
 					if !core.IsResult(leaf, 0, core.Is(nw)) {
 						return
 					}
@@ -1232,11 +1232,11 @@ func c01(r *core.Run) {
 			return l != nil && core.IsGlobal(brkPkg, "breakers")(l.X) && isValueOf(f.Params[0])(l.Index)
 		}
 		for _, ret := range core.Returns(f) {
-			for _, x := range gxPhiLeaves(core.Result(ret, 0)) {
+			c01LeavesWithEdges(core.Result(ret, 0), func(x ssa.Value, _ *core.Edge) {
 				if !isLookup(x) && !core.IsResult(x, 0, isNew) {
 					o.Fail(p.InstrPos(ret), "Get returns %s: neither the breaker registered under the name nor the one just created", core.Describe(x))
 				}
-			}
+			})
 		}
 	})
 
